@@ -685,9 +685,17 @@ pub fn supervise<P: Property>(p: &P, opts: &RunOpts) -> i32 {
     }
     let mut kf_status: Vec<Value> = vec![];
     for k in &known {
-        let rp = k.replays.get(id).map(|r| Path::new(VERIF_ROOT).join(r));
+        // own replay if there is one, otherwise the finding's first replay under its own property
+        // (a root cause shared between properties is active for all of them while it reproduces)
+        let (rid, rp) = match k.replays.get(id) {
+            Some(r) => (id.to_string(), Some(Path::new(VERIF_ROOT).join(r))),
+            None => match k.replays.iter().next() {
+                Some((pid, r)) => (pid.clone(), Some(Path::new(VERIF_ROOT).join(r))),
+                None => (id.to_string(), None),
+            },
+        };
         let outcome = match &rp {
-            Some(path) if path.exists() => Some(isolate_case(id, path, Duration::from_secs(120))),
+            Some(path) if path.exists() => Some(isolate_case(&rid, path, Duration::from_secs(120))),
             _ => None,
         };
         let (reproduces, got_sig, got_detail) = match &outcome {
